@@ -1,5 +1,6 @@
 """C18 - EBLIF files are read faithfully and survive write-then-read."""
 from simkit.engine import Prop
+from simkit import design_shrink
 from simkit.gen_hier import ScriptGen
 from simkit import corpus, textgen_eblif
 from simkit.model import scan
@@ -88,8 +89,9 @@ class C18(Prop):
             ev.append({"op": "fs_put_example", "name": cfg["example"], "path": "sim://in.eblif"})
         else:
             d = textgen_eblif.gen_design(rng, cfg["gen"])
-            ev.append({"op": "fs_put", "path": "sim://in.eblif", "text": textgen_eblif.render(d, rng, cfg["render"]),
-                       "design": d})
+            rs = rng.getrandbits(32)
+            ev.append({"op": "fs_put", "path": "sim://in.eblif", "text": design_shrink.render("eblif", d, rs, cfg["render"]),
+                       "design": d, "fmt": "eblif", "render": cfg["render"], "render_seed": rs})
         ev.append({"op": "parse", "path": "sim://in.eblif", "tag": "read"})
         net = "e%d.0" % (len(ev) - 1)
         ev.append({"op": "compose", "on": net, "path": "sim://out.eblif", "opts": cfg["opts"], "tag": "write"})
